@@ -9,6 +9,13 @@ Case protocol (coq/C16/Model.v run_case, harness/h_c16.cpp):
   5 ty n v1..vn      vector print + back                       -> |s| s ok m elems..
   6 k                platform limits / enum class meta data
   7 ty lo hi         implementation-side sweep of stringTo(toString(v)) over lo..hi -> #failures first
+  8 k ...            lists written into NON-EMPTY accumulators (appending xconvert(std::string&, ...)):
+      8 0 ta a ty n v..           toString(A(a), vector<T>)            -> |s| s tok a' consumed [lok m elems.. | 0 0]
+      8 1 ta a tb b ty n v..      toString(A(a), B(b), vector<T>)      -> |s| s tok a' k [tok b' k [lok m elems.. | 0 0] | 0 0 0 0 0]
+      8 2 ty sep plen bytes n v.. accu = bytes; xconvert(accu, begin, end, char(sep)); xconvert(accu.c_str()+plen, vector<T>&, &end, sep)
+                                                                       -> |accu| accu t consumed elems..
+      8 3 ty d n v.. m w..        accu = ""; xconvert(accu, l1); accu += char(d); xconvert(accu, l2) -> |accu| accu |part1| ok1 m1 e.. ok2 m2 e..
+      8 4 ty n v..                accu = "["; xconvert(accu, vec); accu += "]"; string_cast(accu)    -> |accu| accu ok m elems..
 ty: 0 bool 1 char 2 int 3 unsigned 4 long 5 unsigned long 6 long long 7 unsigned long long 8.. enums
 
 The oracle judges the IMPLEMENTATION's observation with python big integers and its own reading of the
@@ -253,6 +260,172 @@ def elem_value(ty, p):
     return None
 
 
+FEW = [0, 2, 7, 10]
+UMAX = {UINT: 2 ** 32 - 1, ULONG: 2 ** 64 - 1, ULLONG: 2 ** 64 - 1}
+
+
+def ref_texts(ty, v):
+    """the renderings of value v of type ty the property admits (reference printer of the oracle); None = v is outside the property"""
+    if ty == BOOL:
+        return [b'true' if v else b'false']
+    if ty == CHAR:
+        return [bytes([v])]
+    if is_enum(ty):
+        ks = [kk for kk, x in enum_table(ty)[0] if x == v]
+        return ks[:1] if ks else None
+    return [b'%d' % v] + ([b'umax'] if UMAX.get(ty) == v else [])
+
+
+def match_render(text, pos, seq):
+    """text[pos:] is the concatenation of seq, each item a list of admissible byte strings -> end position or None"""
+    if not seq:
+        return pos
+    for alt in sorted(seq[0], key=len, reverse=True):
+        if text[pos:pos + len(alt)] == alt:
+            r = match_render(text, pos + len(alt), seq[1:])
+            if r is not None:
+                return r
+    return None
+
+
+def list_items(ty, l, sep):
+    """reference rendering of a list: element texts separated by sep - no separator in front of the first element, whatever precedes the list"""
+    items = []
+    for i, v in enumerate(l):
+        if i:
+            items.append([sep])
+        items.append(ref_texts(ty, v))
+    return items
+
+
+def dec8(c):
+    """decode an op-8 case -> dict (values normalised to their types)"""
+    k = c[1]
+
+    def vals(i, ty):
+        n = max(c[i], 0) if i < len(c) else 0
+        return [norm(ty, v) for v in c[i + 1:i + 1 + n]], i + 1 + n
+    if k == 0:
+        ta, ty = c[2], c[4]
+        l, _ = vals(5, ty)
+        return {'k': 0, 'scal': [(ta, norm(ta, c[3]))], 'ty': ty, 'l': l}
+    if k == 1:
+        ta, tb, ty = c[2], c[4], c[6]
+        l, _ = vals(7, ty)
+        return {'k': 1, 'scal': [(ta, norm(ta, c[3])), (tb, norm(tb, c[5]))], 'ty': ty, 'l': l}
+    if k == 2:
+        ty, sep, plen = c[2], c[3], c[4]
+        l, _ = vals(5 + plen, ty)
+        return {'k': 2, 'ty': ty, 'sep': sep, 'pre': bytes(x % 256 for x in c[5:5 + plen]), 'l': l}
+    if k == 3:
+        ty, d = c[2], c[3]
+        l1, j = vals(4, ty)
+        l2, _ = vals(j, ty)
+        return {'k': 3, 'ty': ty, 'd': d, 'l': l1, 'l2': l2}
+    if k == 4:
+        ty = c[2]
+        l, _ = vals(3, ty)
+        return {'k': 4, 'ty': ty, 'l': l}
+    return None
+
+
+def back_sig(ty, l, ok, els, bracketed=False):
+    """value-level round trip of one list (same exclusions as op 5: the KNOWN findings)"""
+    if ok and els == l:
+        return []
+    if not l:
+        return ['roundtrip:empty-list']
+    if ty == CHAR and 0 in l:
+        return ['roundtrip:char-nul']
+    if ty == CHAR and l[0] == 91 and not bracketed:
+        return ['roundtrip:list-first-char-is-open-bracket']
+    return ['render-does-not-parse-back']
+
+
+def sep_is_safe(sep, ty, l):
+    """custom separators the round trip is judged for: not part of a numeral / key / word, not a bracket, not white space"""
+    b = bytes([sep])
+    if is_enum(ty) and sep != 44:
+        return False        # EnumClass::convert delimits a key by strcspn(x, " ,="): keys are only recognised in front of ' ' ',' '=' or the end (observation, notes/C16.md)
+    if b.isalnum() or b in b'+-[]()\\_' or b in SPACE or sep >= 128 or sep < 33:
+        return False
+    if ty == CHAR and sep in l:
+        return sep == 44
+    return True
+
+
+def oracle8(c, obs):
+    d = dec8(c)
+    if d is None:
+        return []
+    ty, l = d['ty'], d['l']
+    types = [ty] + [t for t, _ in d.get('scal', [])]
+    if any(is_enum(t) for t in types):
+        allv = [(ty, v) for v in l + d.get('l2', [])] + d.get('scal', [])
+        if any(is_enum(t) and ref_texts(t, v) is None for t, v in allv):
+            return []                       # not values of the enumeration: outside the property
+    n = obs[0]
+    text = bytes(obs[1:1 + n])
+    r = obs[1 + n:]
+    sig = []
+    k = d['k']
+    if k in (0, 1):
+        items = []
+        for t, v in d['scal']:
+            items += [ref_texts(t, v), [b',']]
+        if match_render(text, 0, items + list_items(ty, l, b',')) != len(text):
+            sig.append('list-render-differs')
+        pos, base = 0, 0
+        for t, v in d['scal']:
+            tok, val, cons = r[pos], dec_val(t, r[pos + 1]), r[pos + 2]
+            pos += 3
+            if t == CHAR and v == 0:
+                return sig + ([] if tok and val == v else ['roundtrip:char-nul'])
+            if not (tok and val == v and text[base + cons:base + cons + 1] == b','):
+                return sig + ['render-does-not-parse-back']
+            base += cons + 1
+        ok, m = r[pos], r[pos + 1]
+        els = [dec_val(ty, x) for x in r[pos + 2:pos + 2 + m]]
+        sig += back_sig(ty, l, ok, els)
+    elif k == 2:
+        sep, pre = d['sep'], d['pre']
+        if not (1 <= sep <= 255):
+            return []
+        if text[:len(pre)] != pre or match_render(text, len(pre), list_items(ty, l, bytes([sep]))) != len(text):
+            sig.append('list-render-differs')
+        t, cons = r[0], r[1]
+        els = [dec_val(ty, x) for x in r[2:2 + t]]
+        if sep_is_safe(sep, ty, l):
+            appended = cstr(list(text[len(pre):]))
+            sig += back_sig(ty, l, t == len(l) and t > 0 and cons == len(appended), els)
+    elif k == 3:
+        l2, dl = d['l2'], d['d']
+        if not (1 <= dl <= 255):
+            return []
+        if match_render(text, 0, list_items(ty, l, b',') + [[bytes([dl])]] + list_items(ty, l2, b',')) != len(text):
+            sig.append('list-render-differs')
+        p = r[0]
+        ok1, m1 = r[1], r[2]
+        e1 = [dec_val(ty, x) for x in r[3:3 + m1]]
+        ok2, m2 = r[3 + m1], r[4 + m1]
+        e2 = [dec_val(ty, x) for x in r[5 + m1:5 + m1 + m2]]
+        if text[p:p + 1] != bytes([dl]):
+            sig.append('list-render-differs')
+        sig += back_sig(ty, l, ok1, e1) + back_sig(ty, l2, ok2, e2)
+    elif k == 4:
+        if match_render(text, 0, [[b'[']] + list_items(ty, l, b',') + [[b']']]) != len(text):
+            sig.append('list-render-differs')
+        ok, m = r[0], r[1]
+        els = [dec_val(ty, x) for x in r[2:2 + m]]
+        if not is_enum(ty):     # "[False]" is not read back: a key directly in front of ']' is not recognised (same observation); toString never writes brackets
+            sig += back_sig(ty, l, ok, els, bracketed=True)
+    out = []
+    for x in sig:
+        if x not in out:
+            out.append(x)
+    return out
+
+
 def oracle(c, obs):
     op = c[0] if c else -1
     if obs == [-998]:
@@ -388,6 +561,8 @@ def _oracle(op, c, obs):
     elif op == 7:
         if obs[0] != 0:
             sig.append('roundtrip:char-nul' if (c[1] == CHAR and obs[0] == 1 and obs[1] % 256 == 0) else 'roundtrip:sweep-%s' % TYNAME[c[1]].replace(' ', '-'))
+    elif op == 8:
+        sig += oracle8(c, obs)
     return sig
 
 
@@ -395,7 +570,7 @@ def nontrivial(c, obs):
     op = c[0]
     if obs == [-998]:
         return False
-    if op in (1, 3, 5, 7):
+    if op in (1, 3, 5, 7, 8):
         return True
     if op in (0, 2, 4):
         return obs[0] != 0 or (c[3] if op != 2 else c[4]) >= 2
@@ -423,6 +598,20 @@ def describe(c):
             return 'stringTo(toString(vector<%s>{%s}))' % (TYNAME.get(c[1]), ','.join(str(norm(c[1], v)) for v in c[3:3 + c[2]]))
         if op == 6:
             return 'platform limits' if c[1] == 0 else 'enumClass() of %s' % TYNAME.get(c[1], c[1])
+        if op == 8:
+            d = dec8(c)
+            lst = lambda t, l: 'vector<%s>{%s}' % (TYNAME.get(t), ','.join(str(v) for v in l))   # noqa: E731
+            if d['k'] in (0, 1):
+                return 'toString(%s, %s), then xconvert / string_cast component by component' % (
+                    ', '.join('%s(%d)' % (TYNAME.get(t), v) for t, v in d['scal']), lst(d['ty'], d['l']))
+            if d['k'] == 2:
+                return 'accu = "%s"; xconvert(accu, v.begin(), v.end(), \'%s\') with v = %s; then xconvert(accu.c_str() + %d, vector&, &end, sep)' % (
+                    esc(d['pre']), esc(bytes([d['sep'] % 256])), lst(d['ty'], d['l']), len(d['pre']))
+            if d['k'] == 3:
+                return 'accu = ""; xconvert(accu, %s); accu += \'%s\'; xconvert(accu, %s); then string_cast of both parts' % (
+                    lst(d['ty'], d['l']), esc(bytes([d['d'] % 256])), lst(d['ty'], d['l2']))
+            if d['k'] == 4:
+                return 'accu = "["; xconvert(accu, %s); accu += "]"; then string_cast(accu)' % lst(d['ty'], d['l'])
         if op == 7:
             return 'sweep stringTo(toString(v)) for %s v in %d..%d' % (TYNAME.get(c[1]), c[2], c[3])
     except Exception:
@@ -679,6 +868,40 @@ def gen(seed, tier):
             add([4, ty, 0, len(s)] + list(s), 'list-special')
     for ty in COMP:
         add([5, ty, 0], 'list-print-back-empty')
+    # --- lists written into NON-EMPTY accumulators (op 8): toString(a, list), toString(a, b, list), iterator range with custom separator
+    #     appended to a prefix, a second list behind a delimiter, bracketed; empty and one-element lists in every position
+    def rlist(ty, n=None):
+        n = rnd.choice([0, 1, 1, 2, 2, 3, 5]) if n is None else n
+        return [n] + [to_ll(comp_value(rnd, ty)) for _ in range(n)]
+    PREFIXES = [b'', b'x', b'[', b'3,', b'a=', b'(', b'1,2,', b',', b' ', b'\0', b'ab\0', b'[[', b'k: ', b'0']
+    SEPS = [44] * 8 + [59, 59, 58, 124, 47, 61, 35, 32, 9, 46, 49, 45, 255, 1, 91, 93]
+    napp = 1600 if tier == 'quick' else 40000
+    for ty in COMP:                       # fixed shapes for every element type
+        for n in (0, 1, 2):
+            add([8, 0, INT, 3, ty] + rlist(ty, n), 'append-toString2')
+            add([8, 1, INT, 3, BOOL, 1, ty] + rlist(ty, n), 'append-toString3')
+            add([8, 2, ty, 44, 1, 120] + rlist(ty, n), 'append-range-prefix')
+            add([8, 2, ty, 59, 2, 51, 59] + rlist(ty, n), 'append-range-custom-sep')
+            add([8, 4, ty] + rlist(ty, n), 'append-bracketed')
+            for m in (0, 1, 2):
+                add([8, 3, ty, 59] + rlist(ty, n) + rlist(ty, m), 'append-second-list')
+    for _ in range(napp):
+        ty = rnd.choice(COMP)
+        r = rnd.random()
+        if r < 0.3:
+            ta = rnd.choice(COMP)
+            add([8, 0, ta, to_ll(comp_value(rnd, ta)), ty] + rlist(ty), 'append-toString2')
+        elif r < 0.5:
+            ta, tb = rnd.choice(FEW), rnd.choice(FEW)
+            add([8, 1, ta, to_ll(comp_value(rnd, ta)), tb, to_ll(comp_value(rnd, tb)), ty] + rlist(ty), 'append-toString3')
+        elif r < 0.75:
+            pre = rnd.choice(PREFIXES) if rnd.random() < 0.8 else bytes(rnd.randint(0, 255) for _ in range(rnd.randint(1, 12)))
+            sep = rnd.choice(SEPS) if rnd.random() < 0.9 else rnd.randint(1, 255)
+            add([8, 2, ty, sep, len(pre)] + list(pre) + rlist(ty), 'append-range' + ('-custom-sep' if sep != 44 else '') + ('-prefix' if pre else ''))
+        elif r < 0.9:
+            add([8, 3, ty, rnd.choice([59, 59, 32, 124, 44, 10, 93, 91, 58])] + rlist(ty) + rlist(ty), 'append-second-list')
+        else:
+            add([8, 4, ty] + rlist(ty), 'append-bracketed')
     return out
 
 
@@ -701,6 +924,37 @@ def shrink(case, fails):
                     vs, changed = t, True
                     break
         return [5, c[1], len(vs)] + vs
+    elif op == 8:
+        # drop list elements (the last list of the case; for 8 3 also the first)
+        def lists_at(c):
+            k = c[1]
+            if k == 0:
+                return [5]
+            if k == 1:
+                return [7]
+            if k == 2:
+                return [5 + c[4]]
+            if k == 3:
+                return [4, 4 + 1 + max(c[4], 0)]
+            return [3]
+        changed = True
+        while changed:
+            changed = False
+            for li in reversed(lists_at(c)):
+                n = c[li]
+                for i in range(max(n, 0)):
+                    cand = c[:li] + [n - 1] + c[li + 1:li + 1 + i] + c[li + 2 + i:]
+                    if fails(cand):
+                        c, changed = cand, True
+                        break
+                if changed:
+                    break
+        if c[1] == 2 and c[4] > 1:
+            for _ in range(c[4] - 1):
+                cand = c[:4] + [c[4] - 1] + c[6:]
+                if c[4] > 1 and fails(cand):
+                    c = cand
+        return c
     else:
         return c
     s = c[hdr + 1:hdr + 1 + ln]
@@ -737,7 +991,8 @@ RULE = ('cases = one call group of the conversion API per case: (a) xconvert+str
         'leading white space, trailing characters, zero padding, 17..100 digit runs, keywords imax/imin/umax/-1 and their prefixes, random strings over a '
         'numeral alphabet, each with errno clean and with stale errno=ERANGE; (b) toString then stringTo of boundary/power-of-10/random values of every '
         'integer type, every bool, all 256 chars, every enum constant; (c) pairs and vectors over {bool,char,int,unsigned,long long,unsigned long long,Value_t,Tuple_t} '
-        'in both directions incl. the empty vector; (d) implementation-side sweeps of the value round trip (thorough tier: all 2^32 values of int and of unsigned). '
+        'in both directions incl. the empty vector; (c2) lists written into NON-EMPTY accumulators: toString(a, list), toString(a, b, list), the iterator-range writer with default and custom separators appended to arbitrary prefixes, '
+        'a second list behind a delimiter, the bracketed form - empty, one-element and longer lists of every element type in each position, read back through the real parsers; (d) implementation-side sweeps of the value round trip (thorough tier: all 2^32 values of int and of unsigned). '
         'non-trivial = a print/back or sweep case, an accepted parse, or a string of >= 2 bytes; distinct = distinct case tuples')
 TRUSTED_BASE = ['strtoll/strtoull modelled per ISO C 7.22.1.4 ("C" locale, unbounded accumulator, clamp + ERANGE, strtoull negates modulo 2^64); validated against glibc by the correspondence run on every generated string',
                 'LP64 <climits> values in tools/consts/C16.py (compared with the real ones by harness op 6)',
@@ -753,6 +1008,7 @@ LEVEL_TEXT = ('Machine-checked proofs (Coq) about an executable model of detectB
               'pairs and non-empty lists round-trip for ALL element types of the model (integers, bool, char, every constant of the nine enumerations) with exactly the exclusions char NUL, char "(" as first component of a pair, '
               'char "[" as first element of a list (each exclusion proved necessary for every value of that shape, not only by a witness); accepts-only for every scalar type, pairs and lists on arbitrary strings: '
               'the input decomposes into optional brackets, element texts and separators, every delivered element is the denotation of its own text and lies in the range of its type, the end position lies inside the string. '
+              'Appending list writer: for EVERY accumulator content and separator exactly accu ++ join(sep, element texts) is produced (c16_list_append), the appended part and toString(a, list) / toString(a, b, list) read back component by component (c16_list_append_roundtrip, c16_tostring2/3_roundtrip). '
               'Model tied to the code by translator-regenerated tables and a differential run against the sanitizer build.')
 LEVEL_NOTE = ('Trusted: Coq kernel/vm_compute, extraction+driver (sample cross-checked by vm_compute), harness, translator; libc strtoll/strtoull modelled (validated by correspondence); '
               'known findings: empty vector, char NUL, leading "(" / "[" char in pair / vector do not round-trip.')
